@@ -25,9 +25,10 @@ def cases(tier, seed):
         n = len(table)
         mode = "symm" if F_h("m3@24", 3) else "square"
         px = gen.random_store(rng, n, mode, maxval=5) if F_h("m10@25", 10) else []
-        ncols = [1, 1, 1, 2][F_h("m4@26", 4)]
+        ncols = [1, 1, 2, 2][F_h("m4@26", 4)]
         cols = ["count", "x"][:ncols]
-        aggs = ["sum"] + [rng.choice(["sum", "max", "min"]) for _ in range(ncols - 1)]
+        # "count" (the number of old pixels in the block) is not decomposable: reducing partial results again gives another number
+        aggs = ["sum"] + [rng.choice(["sum", "max", "min", "count"]) for _ in range(ncols - 1)]
         case = {"table": table, "mode": mode, "px": addcols(px, ncols, rng), "cols": cols, "aggs": aggs,
                 "k": rng.choice([2, 2, 3, 4, 5, 7, n + 1]), "chunk": rng.choice([1, 2, 3, 5, 10 ** 6]),
                 "nproc": 1, "group": "/" if F_h("m5@31", 5) else "/c"}
